@@ -29,7 +29,9 @@ RULE = ("a case = (script, fault map): the script fixes mode (foreground/daemon,
         "(sync string / ROUTES / HOST_LIST / PING / data / garbage, cut anywhere; ROUTES early, late, twice or "
         "never; EOF), the write grant and an incoming connection, the helper's reply line / exit status, and "
         "how the session ends (SIGINT, SIGTERM, ssh death with any status, with or without EOF on its stdout; "
-        "non-frame bytes on the tunnel while ssh stays alive); the fault map makes the k-th stub "
+        "non-frame bytes on the tunnel while ssh stays alive; the platform's answer for a dead ssh: in daemon mode "
+        "kill(pid,0) raises ESRCH, EPERM or another OSError, in foreground mode poll() gives any status including 0 "
+        "and signal values — each must end the session in that iteration, and a live ssh must never be declared dead); the fault map makes the k-th stub "
         "call raise one of 9 exception kinds (Fatal, OSError EPIPE/ECONNRESET/EAGAIN/EIO, KeyboardInterrupt, "
         "SystemExit, AssertionError, Exception) — ALL k of the run x all kinds for every script; a second stream "
         "runs the real FirewallClient (__init__/setup/start/done) over a real socketpair against a helper "
@@ -758,8 +760,12 @@ def run_real(script, faults, realfw=False, level=None):
             rv = w.probe()
             # kernel semantics: the pid of an exited child stays valid (zombie) until its parent reaps it,
             # so kill(pid, 0) succeeds; an orphan (after daemonize) is reaped by init at once -> ESRCH
+            # Which errno the probe of a DEAD ssh answers with is up to the platform: ESRCH when the pid is
+            # free, EPERM when it was recycled by another user's process or a container/LSM policy denies
+            # signalling, or something else; the scenario chooses (`kill_errno`).
             if rv is not None and (w.daemonized or w.reaped):
-                raise OSError(errno.ESRCH, 'No such process')
+                en = w.s.get('kill_errno', errno.ESRCH)
+                raise OSError(en, os.strerror(en))
             return None
         return real_kill(pid, sig)
 
@@ -886,7 +892,7 @@ def opt(v):
 
 
 def script_line(s, faults):
-    steps = ';'.join('%s/%s/%s/%d' % (opt(st['alive']), 'N' if st['arrive'] is None else
+    steps = ';'.join('%s/%s/%s/%d' % (opt(None if st['alive'] is None else abs(st['alive'])), 'N' if st['arrive'] is None else
                                         ('E' if st['arrive'] == 'E' else hexb(st['arrive'])),
                                         opt(st['grant']), 1 if st['accept'] else 0) for st in s['steps']) or '-'
     hs = ','.join(hexb(c) for c in s['hs'] if c) or '-'
@@ -1011,6 +1017,16 @@ def oracle(script, faults, events, outcome, w):
             if not faults and outcome != 'exc=fatal':
                 bad.append(('C12:ssh-death-not-fatal', 'exc=fatal', outcome))
             break
+    # R10: a LIVE ssh is never declared dead: a session in which ssh never exits, nothing is faulted and the
+    # last thing before the finally part is a liveness probe that is not the scripted end must not be Fatal
+    if not faults and w.dead_rv is None and script['poll0'] is None and outcome == 'exc=fatal' and \
+            script['end'] != 'fatal' and not w.stuck:
+        body = [e for e in ev[:closes[0]] if e != 'rc0'] if closes else []
+        if body and body[-1] in ('poll', 'kill') and len(w.probe_times) >= 1 and \
+                (w.timed or w.iter < len(script['steps'])):
+            bad.append(('C12:live-ssh-declared-dead', 'a liveness probe of a running ssh does not end the session',
+                        'Fatal right after probe no. %d although ssh was alive; tail of trace: %s'
+                        % (len(w.probe_times), ' '.join(ev[-8:]))))
     # R7: a corrupted tunnel stream (>= 8 bytes at a frame boundary that are not a frame header) with ssh
     # still alive must release the helper within ROUNDS_BOUND further loop rounds
     corrupt_at = None
@@ -1160,7 +1176,7 @@ def gen_script(rng, ssnet, flavour):
             arrive = None
         if i == die_at and rng.random() < 0.5:
             arrive = 'E'
-        steps.append(dict(alive=(rng.choice([0, 1, 255, -15]) if i == die_at else None), arrive=arrive,
+        steps.append(dict(alive=(rng.choice([0, 1, 255, -15, -9, 143]) if i == die_at else None), arrive=arrive,
                           grant=rng.choice([None, None, 0, 1, 5, 100, 4096]),
                           accept=1 if rng.random() < 0.2 else 0))
     if flavour == 'corrupt':
@@ -1169,6 +1185,8 @@ def gen_script(rng, ssnet, flavour):
         for _ in range(rng.randrange(3, 5)):
             steps.append(dict(alive=None, arrive=None, grant=None, accept=rng.randrange(2)))
     s['steps'] = steps
+    if flavour == 'sshdeath':
+        s['kill_errno'] = rng.choice([errno.ESRCH, errno.EPERM, errno.EPERM, errno.EINVAL, errno.EACCES])
     if flavour == 'helper':
         s['line'] = rng.choice([b'', b'', b'STARTED', b'ERROR\n', b'STARTED\n', b'started\n'])
         s['hpoll'] = rng.choice([None, 0, 0, 1, 99])
@@ -1286,6 +1304,14 @@ def fixed_scripts(ssnet):
     out.append(dict(base, hs=[sync], steps=[dict(quiet, arrive=r + fr(0, ssnet.CMD_PING, b'x') + b'Conn', grant=9),
                                             dict(quiet, arrive=b'ection closed by remote host\r\n'),
                                             dict(quiet), dict(quiet), dict(quiet), dict(quiet)]))
+    # what the platform answers for a dead ssh: daemon — ESRCH / EPERM / another OSError; foreground — any
+    # exit status including 0 and signal (negative) values; the script would go on for 3 more rounds
+    for en in (errno.ESRCH, errno.EPERM, errno.EINVAL):
+        out.append(dict(base, daemon=1, end='sysexit', hs=[sync + r], kill_errno=en,
+                        steps=[dict(quiet, grant=4096), dict(quiet, alive=1), dict(quiet), dict(quiet, accept=1), dict(quiet)]))
+    for rv in (0, -15, -9, 255):
+        out.append(dict(base, hs=[sync + r],
+                        steps=[dict(quiet, grant=4096), dict(quiet, alive=rv), dict(quiet), dict(quiet, accept=1), dict(quiet)]))
     # foreground / daemon: ssh exits (stdout reaches EOF) in iteration 1, the script would go on for 4 rounds
     for d in (0, 1):
         out.append(dict(base, daemon=d, end='sysexit' if d else 'kbint', hs=[sync + r],
@@ -1339,10 +1365,6 @@ def gen_cases(ctx):
     for i in range(nrand):
         scripts.append(gen_script(rng, ssnet, FLAVOURS[i % len(FLAVOURS)]))
     for si, s in enumerate(scripts):
-        if negative_alive(s):
-            for st in s['steps']:
-                if st['alive'] is not None and st['alive'] < 0:
-                    st['alive'] = 143
         ev, outcome, w = run_case(ctx, s, {}, cases)
         n = w.calls
         ctx.hist('scripts')
@@ -1513,7 +1535,8 @@ def timed_histories(ssnet, rng, thorough):
                     elif tail == 'accept':
                         h.append((5000, 'accept', None))
                         h.append((3600 * 1000, 'sigterm' if d else 'sigint', None))
-                    out.append(dict(base, daemon=d, hs=[sync + r], history=h))
+                    out.append(dict(base, daemon=d, hs=[sync + r], history=h,
+                                    kill_errno=rng.choice([errno.ESRCH, errno.EPERM, errno.EINVAL])))
     return out
 
 
